@@ -18,11 +18,11 @@ class AnalysisError(Exception):
 
 
 class Module:
-    def __init__(self, name: str, path: str, source: str):
+    def __init__(self, name: str, path: str, source: str, tree: Optional[ast.AST] = None):
         self.name = name
         self.path = path
         self.source = source
-        self.tree = ast.parse(source, filename=path)
+        self.tree = tree if tree is not None else ast.parse(source, filename=path)
         self.lines = source.splitlines()
         # qualname -> def node
         self.functions: Dict[str, ast.AST] = {}
@@ -127,6 +127,7 @@ class ProgramDB:
             raise AnalysisError(f"{root} not found")
         h = hashlib.sha256()
         nlines = 0
+        parsed = []
         for dp, dn, fn in sorted(os.walk(root)):
             dn.sort()
             for f in sorted(fn):
@@ -140,12 +141,21 @@ class ProgramDB:
                 if name.endswith(".__init__"):
                     name = name[: -len(".__init__")]
                 try:
-                    self.modules[name] = Module(name, path, src)
+                    parsed.append((name, path, src, ast.parse(src, filename=path)))
                 except SyntaxError as e:
                     raise AnalysisError(f"cannot parse {rel}: {e}")
                 h.update(rel.encode())
                 h.update(src.encode())
                 nlines += src.count("\n")
+        # argument-passing style is not behaviour: calls to callables defined exactly once in hta are put into a canonical
+        # form (leading arguments positional) before anything is indexed, so that no rule or hook depends on f(a, b) vs f(x=a, y=b)
+        self.sigs = _signature_table([t for _, _, _, t in parsed])
+        global SIGS
+        SIGS = self.sigs
+        self.canonicalised_calls = 0
+        for name, path, src, tree in parsed:
+            self.canonicalised_calls += _canonicalise_calls(tree, self.sigs)
+            self.modules[name] = Module(name, path, src, tree)
         self.digest = h.hexdigest()[:16]
         self.nlines = nlines
 
@@ -219,10 +229,132 @@ def call_name(call: ast.Call) -> str:
 
 
 def kwarg(call: ast.Call, name: str) -> Optional[ast.expr]:
+    """the argument bound to parameter `name`: a keyword, or - for callees in the signature table - the positional argument at that parameter's place"""
     for k in call.keywords:
         if k.arg == name:
             return k.value
+    sig = _sig_of(call, SIGS)
+    if sig is not None and name in sig and sig.index(name) < len(call.args) and not any(isinstance(a, ast.Starred) for a in call.args):
+        return call.args[sig.index(name)]
     return None
+
+
+def bound_args(call: ast.Call) -> Dict[str, ast.expr]:
+    """parameter name -> argument expression: keywords, plus positionals for callees in the signature table"""
+    out = {k.arg: k.value for k in call.keywords if k.arg is not None}
+    sig = _sig_of(call, SIGS)
+    if sig is not None and not any(isinstance(a, ast.Starred) for a in call.args):
+        for p_, a in zip(sig, call.args):
+            out.setdefault(p_, a)
+    return out
+
+
+# ---------------------------------------------------------------------------------------------------------------------
+# signature table + canonical call form
+# ---------------------------------------------------------------------------------------------------------------------
+SIGS: Dict[str, Tuple[List[str], str]] = {}
+_FOREIGN_ATTRS: Optional[set] = None
+
+
+def _foreign_attrs() -> set:
+    """method names of library / builtin objects: an attribute call with such a name is never attributed to an hta function by name alone"""
+    global _FOREIGN_ATTRS
+    if _FOREIGN_ATTRS is None:
+        names = set()
+        for o in (dict, list, str, set, tuple, bytes, int, float):
+            names |= set(dir(o))
+        try:
+            import pandas as _pd
+            import numpy as _np
+            for o in (_pd.DataFrame, _pd.Series, _pd.Index, _pd.core.groupby.DataFrameGroupBy, _np.ndarray):
+                names |= set(dir(o))
+        except Exception:          # the analysis itself needs neither library
+            pass
+        try:
+            import networkx as _nx
+            names |= set(dir(_nx.DiGraph))
+        except Exception:
+            pass
+        names |= {"debug", "info", "warning", "error", "critical", "exception", "log"}
+        _FOREIGN_ATTRS = names
+    return _FOREIGN_ATTRS
+
+
+def _signature_table(trees: List[ast.AST]) -> Dict[str, Tuple[List[str], str]]:
+    """name -> (parameters without self/cls, kind) for functions, methods and classes (constructor) whose NAME is defined exactly once in hta.
+    kind: 'function' | 'method' | 'classmethod' | 'staticmethod' | 'class'.  Only plain positional-or-keyword parameters."""
+    seen: Dict[str, list] = {}
+
+    def plain(a: ast.arguments) -> bool:
+        return not a.vararg and not a.kwarg and not a.posonlyargs
+
+    def visit(body, in_class):
+        for st in body:
+            if isinstance(st, (ast.FunctionDef, ast.AsyncFunctionDef)):
+                decos = [ast.unparse(d) for d in st.decorator_list]
+                params = [x.arg for x in st.args.args]
+                kind = "function"
+                if in_class:
+                    kind = "staticmethod" if "staticmethod" in decos else "classmethod" if "classmethod" in decos else "method"
+                    if kind != "staticmethod":
+                        params = params[1:]
+                seen.setdefault(st.name, []).append((params, kind) if plain(st.args) else None)
+                visit(st.body, False)
+            elif isinstance(st, ast.ClassDef):
+                init = next((x for x in st.body if isinstance(x, ast.FunctionDef) and x.name == "__init__"), None)
+                is_dc = any("dataclass" in ast.unparse(d) for d in st.decorator_list) or any(isinstance(b, ast.Name) and b.id == "NamedTuple" for b in st.bases)
+                if init is not None:
+                    seen.setdefault(st.name, []).append(([x.arg for x in init.args.args][1:], "class") if plain(init.args) else None)
+                elif is_dc:
+                    seen.setdefault(st.name, []).append(([x.target.id for x in st.body if isinstance(x, ast.AnnAssign) and isinstance(x.target, ast.Name)], "class"))
+                else:
+                    seen.setdefault(st.name, []).append(None)
+                visit(st.body, True)
+            else:
+                for fld in ("body", "orelse", "finalbody"):
+                    visit(getattr(st, fld, []) or [], in_class)
+                for h_ in getattr(st, "handlers", []) or []:
+                    visit(h_.body, in_class)
+    for t in trees:
+        visit(t.body, False)
+    return {k: v[0] for k, v in seen.items() if len(v) == 1 and v[0] is not None and not (k.startswith("__") and k.endswith("__"))}
+
+
+def _sig_of(call: ast.Call, sigs) -> Optional[List[str]]:
+    f = call.func
+    if isinstance(f, ast.Name):
+        e = sigs.get(f.id)
+        return e[0] if e is not None and e[1] in ("function", "class") else None
+    if isinstance(f, ast.Attribute):
+        e = sigs.get(f.attr)
+        if e is None or e[1] == "function":
+            return None
+        if f.attr in _foreign_attrs():
+            return None
+        return e[0]
+    return None
+
+
+def _canonicalise_calls(tree: ast.AST, sigs) -> int:
+    """in place: keywords that bind the next positional parameters of a table callee are moved into the positional list"""
+    n = 0
+    for c in ast.walk(tree):
+        if not isinstance(c, ast.Call) or not c.keywords or any(isinstance(a, ast.Starred) for a in c.args) or any(k.arg is None for k in c.keywords):
+            continue
+        sig = _sig_of(c, sigs)
+        if sig is None or len(c.args) > len(sig):
+            continue
+        moved = False
+        while len(c.args) < len(sig):
+            nxt = sig[len(c.args)]
+            kw = next((k for k in c.keywords if k.arg == nxt), None)
+            if kw is None:
+                break
+            c.args.append(kw.value)
+            c.keywords.remove(kw)
+            moved = True
+        n += moved
+    return n
 
 
 def lit(node: Optional[ast.AST], default=None):
